@@ -3,7 +3,7 @@
    to the layer above, the parser state (cipher counters) and the residual buffer. *)
 From Coq Require Import NArith ZArith List Bool Arith Lia.
 From PV Require Import Common.Cases Common.Framing Common.Endian.
-From PV Require Import C02.Model C02.Spec C02.ProofsBase C02.ProofsLaws C02.ProofsHttp C02.ProofsLayer C02.ProofsSpec C02.ProofsRoundtrip.
+From PV Require Import C02.Model C02.Spec C02.ProofsBase C02.ProofsLaws C02.ProofsHttp C02.ProofsLayer C02.ProofsSpec C02.ProofsRoundtrip C02.ProofsStrict.
 Import ListNotations.
 Local Open Scope N_scope.
 
@@ -51,35 +51,63 @@ Proof.
 Qed.
 Print Assumptions C02_datastream_segmentation.
 
-(* ---- HTTP/RTSP client (HttpConnection.data_received) *)
+(* ---- HTTP.  httpc_p1 / httpd_p1 / ev_p1 are the code as written: ANY integer Content-Length is
+   accepted (Python int(): sign, surrounding whitespace, underscores) and the body slices follow
+   Python's rules for negative bounds.  The *_nn parsers additionally refuse a negative length.
+   Hypothesis: the unsplit stream, read by the strict parser, raises nothing.  Conclusion, about the
+   code as written: any segmentation gives the same messages and residual buffer - and the strict
+   parser describes it exactly. *)
 Theorem C02_http_client_segmentation : forall utf8_ok first_ok chunks,
-  no_failure (run (httpc_p1 utf8_ok first_ok) tt (concat chunks)) ->
-  feeds (httpc_p1 utf8_ok first_ok) tt [] chunks = run (httpc_p1 utf8_ok first_ok) tt (concat chunks).
+  no_failure (run (httpc_p1_nn utf8_ok first_ok) tt (concat chunks)) ->
+  feeds (httpc_p1 utf8_ok first_ok) tt [] chunks = run (httpc_p1 utf8_ok first_ok) tt (concat chunks) /\
+  run (httpc_p1 utf8_ok first_ok) tt (concat chunks) = run (httpc_p1_nn utf8_ok first_ok) tt (concat chunks).
 Proof.
   intros u f chunks NF.
-  apply (feed_chunks _ _ _ _ _ (httpc_stable u f) (httpc_progress u f) (httpc_failpfx u f) chunks tt []); [reflexivity|exact NF].
+  exact (seg_via_strict _ _ (httpc_p1 u f) (httpc_p1_nn u f) (httpc_agree u f) (httpc_stable u f)
+           (httpc_progress u f true) (httpc_failpfx u f) chunks tt NF).
 Qed.
 Print Assumptions C02_http_client_segmentation.
 
 (* ---- built-in HTTP server (BasicHttpServer.data_received) *)
 Theorem C02_http_server_segmentation : forall utf8_ok first_ok chunks,
-  no_failure (run (httpd_p1 utf8_ok first_ok) tt (concat chunks)) ->
-  feeds (httpd_p1 utf8_ok first_ok) tt [] chunks = run (httpd_p1 utf8_ok first_ok) tt (concat chunks).
+  no_failure (run (httpd_p1_nn utf8_ok first_ok) tt (concat chunks)) ->
+  feeds (httpd_p1 utf8_ok first_ok) tt [] chunks = run (httpd_p1 utf8_ok first_ok) tt (concat chunks) /\
+  run (httpd_p1 utf8_ok first_ok) tt (concat chunks) = run (httpd_p1_nn utf8_ok first_ok) tt (concat chunks).
 Proof.
   intros u f chunks NF.
-  apply (feed_chunks _ _ _ _ _ (httpd_stable u f) (httpd_progress u f) (httpd_failpfx u f) chunks tt []); [reflexivity|exact NF].
+  exact (seg_via_strict _ _ (httpd_p1 u f) (httpd_p1_nn u f) (httpd_agree u f) (httpd_stable u f)
+           (httpd_progress u f true) (httpd_failpfx u f) chunks tt NF).
 Qed.
 Print Assumptions C02_http_server_segmentation.
 
 (* ---- event channel requests (EventChannel.handle_received on the plaintext buffer) *)
 Theorem C02_event_segmentation : forall utf8_ok first_ok chunks,
-  no_failure (run (ev_p1 utf8_ok first_ok) tt (concat chunks)) ->
-  feeds (ev_p1 utf8_ok first_ok) tt [] chunks = run (ev_p1 utf8_ok first_ok) tt (concat chunks).
+  no_failure (run (ev_p1_nn utf8_ok first_ok) tt (concat chunks)) ->
+  feeds (ev_p1 utf8_ok first_ok) tt [] chunks = run (ev_p1 utf8_ok first_ok) tt (concat chunks) /\
+  run (ev_p1 utf8_ok first_ok) tt (concat chunks) = run (ev_p1_nn utf8_ok first_ok) tt (concat chunks).
 Proof.
   intros u f chunks NF.
-  apply (feed_chunks _ _ _ _ _ (ev_stable u f) (ev_progress u f) (ev_failpfx u f) chunks tt []); [reflexivity|exact NF].
+  exact (seg_via_strict _ _ (ev_p1 u f) (ev_p1_nn u f) (ev_agree u f) (ev_stable u f)
+           (ev_progress u f true) (ev_failpfx u f) chunks tt NF).
 Qed.
 Print Assumptions C02_event_segmentation.
+
+(* ---- a negative Content-Length is accepted by the code as written, and there the delivered
+   message DOES depend on the segmentation: the "body" is whatever is buffered minus |length|
+   bytes.  (Not a valid stream; termination still holds, see C02_loops_terminate.) *)
+Theorem C02_http_negative_content_length_refuted :
+  exists utf8_ok first_ok c1 c2, concat c1 = concat c2 /\
+    no_failure (run (httpc_p1 utf8_ok first_ok) tt (concat c1)) /\
+    feeds (httpc_p1 utf8_ok first_ok) tt [] c1 <> feeds (httpc_p1 utf8_ok first_ok) tt [] c2.
+Proof.
+  (* "H/1 2 x" CRLF "Content-Length: -2" CRLF CRLF "abcdef", whole / cut after "ab" *)
+  pose (head := [72;47;49;32;50;32;120;13;10] ++ CONTENT_LENGTH ++ [58;32;45;50;13;10;13;10]).
+  exists (fun _ => true), (fun _ => true), [head ++ [97;98;99;100;101;102]], [head ++ [97;98]; [99;100;101;102]].
+  split; [reflexivity|]. split.
+  - intros ms e. vm_compute. discriminate.
+  - vm_compute. discriminate.
+Qed.
+Print Assumptions C02_http_negative_content_length_refuted.
 
 (* ---- the loops of BasicHttpServer and EventChannel exactly as written (they keep the
    connection open where the drain shape says Failed) coincide with `run`: *)
@@ -128,21 +156,29 @@ Proof.
 Qed.
 Print Assumptions C02_datastream_channel.
 
-(* EventChannel.data_received *)
+(* EventChannel.data_received (hypothesis on the strict parser, conclusion about the code as written) *)
 Theorem C02_event_channel : forall dec utf8_ok first_ok chunks c ms c' ra sb' rb,
-  lwhole _ _ _ (hap_p1 dec) (ev_p1 utf8_ok first_ok) c [] tt [] (concat chunks) = LOut ms c' ra sb' rb ->
-  lfeeds _ _ _ (hap_p1 dec) (ev_p1 utf8_ok first_ok) true c [] tt [] chunks = LOut ms c' ra sb' rb.
+  lwhole _ _ _ (hap_p1 dec) (ev_p1_nn utf8_ok first_ok) c [] tt [] (concat chunks) = LOut ms c' ra sb' rb ->
+  lfeeds _ _ _ (hap_p1 dec) (ev_p1 utf8_ok first_ok) true c [] tt [] chunks = LOut ms c' ra sb' rb /\
+  lwhole _ _ _ (hap_p1 dec) (ev_p1 utf8_ok first_ok) c [] tt [] (concat chunks) = LOut ms c' ra sb' rb.
 Proof.
-  intros dec u f. intros. apply (C02_hap_channel_segmentation _ _ _ true dec (ev_stable u f) (ev_progress u f) (ev_failpfx u f)). assumption.
+  intros dec u f chunks c ms c' ra sb' rb W.
+  exact (layered_via_strict _ _ (ev_p1 u f) (ev_p1_nn u f) (ev_agree u f) (ev_stable u f) (ev_progress u f true)
+           (ev_failpfx u f) _ (hap_p1 dec) true (hap_stable dec) (hap_progress dec) (hap_failpfx dec)
+           chunks c tt ms c' ra sb' rb W).
 Qed.
 Print Assumptions C02_event_channel.
 
 (* HttpConnection with receive_processor = HAPSession.decrypt (AirPlay 2 control / RTSP) *)
 Theorem C02_encrypted_http_client : forall dec utf8_ok first_ok chunks c ms c' ra sb' rb,
-  lwhole _ _ _ (hap_p1 dec) (httpc_p1 utf8_ok first_ok) c [] tt [] (concat chunks) = LOut ms c' ra sb' rb ->
-  lfeeds _ _ _ (hap_p1 dec) (httpc_p1 utf8_ok first_ok) false c [] tt [] chunks = LOut ms c' ra sb' rb.
+  lwhole _ _ _ (hap_p1 dec) (httpc_p1_nn utf8_ok first_ok) c [] tt [] (concat chunks) = LOut ms c' ra sb' rb ->
+  lfeeds _ _ _ (hap_p1 dec) (httpc_p1 utf8_ok first_ok) false c [] tt [] chunks = LOut ms c' ra sb' rb /\
+  lwhole _ _ _ (hap_p1 dec) (httpc_p1 utf8_ok first_ok) c [] tt [] (concat chunks) = LOut ms c' ra sb' rb.
 Proof.
-  intros dec u f. intros. apply (C02_hap_channel_segmentation _ _ _ false dec (httpc_stable u f) (httpc_progress u f) (httpc_failpfx u f)). assumption.
+  intros dec u f chunks c ms c' ra sb' rb W.
+  exact (layered_via_strict _ _ (httpc_p1 u f) (httpc_p1_nn u f) (httpc_agree u f) (httpc_stable u f) (httpc_progress u f true)
+           (httpc_failpfx u f) _ (hap_p1 dec) false (hap_stable dec) (hap_progress dec) (hap_failpfx dec)
+           chunks c tt ms c' ra sb' rb W).
 Qed.
 Print Assumptions C02_encrypted_http_client.
 
@@ -225,9 +261,9 @@ Theorem C02_http_roundtrip_partial : forall utf8_ok first hdrs body rest,
   Forall (fun kv => clean (fst kv) /\ clean (snd kv)) hdrs ->
   Forall (fun kv => ~ In 58 (fst kv)) hdrs ->
   utf8_ok (first ++ concat (map (fun kv => CRLF ++ line_of kv) hdrs)) = true ->
-  cl_of (cid_of hdrs) = Some (len body) ->
+  cl_of (cid_of hdrs) = CLInt (Z.of_N (len body)) ->
   parse_http_message utf8_ok (format_head first hdrs ++ body ++ rest) = HMsg first (cid_of hdrs) body rest.
-Proof. exact http_roundtrip. Qed.
+Proof. intro u. exact (http_roundtrip u false). Qed.
 Print Assumptions C02_http_roundtrip_partial.
 
 (* a well-formed HTTP message as a frame of the client connection *)
@@ -236,7 +272,7 @@ Definition http_wf (utf8_ok first_ok : bytes -> bool) (m : http_msg) : Prop :=
   let '(first, hdrs, body) := m in
   clean first /\ Forall (fun kv => clean (fst kv) /\ clean (snd kv)) hdrs /\ Forall (fun kv => ~ In 58 (fst kv)) hdrs /\
   utf8_ok (first ++ concat (map (fun kv => CRLF ++ line_of kv) hdrs)) = true /\
-  cl_of (cid_of hdrs) = Some (len body) /\ first_ok first = true.
+  cl_of (cid_of hdrs) = CLInt (Z.of_N (len body)) /\ first_ok first = true.
 Definition http_delivered (m : http_msg) : http_msg := (fst (fst m), cid_of (snd (fst m)), snd m).
 
 Theorem C02_http_client_valid_stream : forall utf8_ok first_ok msgs chunks,
@@ -246,17 +282,26 @@ Theorem C02_http_client_valid_stream : forall utf8_ok first_ok msgs chunks,
 Proof.
   intros u f msgs chunks W E.
   assert (ONE : forall (s : unit) (m : http_msg) (rest : bytes), http_wf u f m ->
-                httpc_p1 u f s (http_enc m ++ rest) = Frame (fst (http_delivered m, tt)) (snd (http_delivered m, tt)) rest).
-  { intros s [[first hdrs] body] rest (H1 & H2 & H3 & H4 & H5 & H6). unfold httpc_p1, http_enc. cbn [fst snd].
-    rewrite <- app_assoc, (http_roundtrip u first hdrs body rest H1 H2 H3 H4 H5), H6. reflexivity. }
-  rewrite (valid_stream_any_split _ _ _ (httpc_p1 u f) http_enc (fun _ m => (http_delivered m, tt)) (fun _ m => http_wf u f m)
-           (httpc_stable u f) (httpc_progress u f) (httpc_failpfx u f) ONE msgs tt chunks); [| |exact E].
+                httpc_p1_nn u f s (http_enc m ++ rest) = Frame (fst (http_delivered m, tt)) (snd (http_delivered m, tt)) rest).
+  { intros s [[first hdrs] body] rest (H1 & H2 & H3 & H4 & H5 & H6). unfold httpc_p1_nn, httpc_gen, http_enc. cbn [fst snd].
+    rewrite <- app_assoc, (http_roundtrip u true first hdrs body rest H1 H2 H3 H4 H5), H6. reflexivity. }
+  apply (feeds_agree _ _ (httpc_p1 u f) (httpc_p1_nn u f) (httpc_agree u f)).
+  rewrite (valid_stream_any_split _ _ _ (httpc_p1_nn u f) http_enc (fun _ m => (http_delivered m, tt)) (fun _ m => http_wf u f m)
+           (httpc_stable u f) (httpc_progress u f true) (httpc_failpfx u f) ONE msgs tt chunks); [| |exact E].
   - f_equal.
     + clear. induction msgs; cbn; congruence.
     + clear. induction msgs; cbn; auto.
   - clear E ONE. induction W; cbn; auto.
 Qed.
 Print Assumptions C02_http_client_valid_stream.
+
+(* ---- progress for EVERY integer Content-Length (negative ones included, Python slice rules):
+   whenever _parse_http_message returns a message, what it leaves is at least 4 bytes shorter
+   than what it was given.  This is the fact the fuel theorem below rests on. *)
+Theorem C02_http_parse_consumes : forall utf8_ok x first hdrs body rest,
+  parse_http_message utf8_ok x = HMsg first hdrs body rest -> (length rest + 4 <= length x)%nat.
+Proof. intros u x f d b r. exact (phm_progress u false x f d b r). Qed.
+Print Assumptions C02_http_parse_consumes.
 
 (* ---- termination: the `while buffer` loops never run out of the fuel |buffer| *)
 Theorem C02_loops_terminate :
@@ -270,7 +315,7 @@ Theorem C02_loops_terminate :
 Proof.
   repeat split; intros; unfold run; apply drain_fuel; try apply le_n.
   - apply mrp_progress. - apply comp_progress. - apply hap_progress. - apply ds_progress.
-  - apply httpc_progress. - apply httpd_progress. - apply ev_progress.
+  - apply (httpc_progress _ _ false). - apply (httpd_progress _ _ false). - apply (ev_progress _ _ false).
 Qed.
 Print Assumptions C02_loops_terminate.
 
